@@ -236,12 +236,20 @@ func (m *c08Monitor) judge(w *world.World, next string) {
 			}
 		}
 	}
+	remoteViews := 0
+	for h := range it.rs {
+		if h != m.local {
+			remoteViews++
+		}
+	}
 	switch {
 	case len(m.ha) == 1 || !isHA:
 		class = "none:single-or-non-ha"
 	case sp.NoFence:
 		class = "none:fencing-disabled"
-	case next == "Candidate" && len(it.rs) == 0:
+	case next == "Candidate" && remoteViews == 0 && len(it.acts) == 0:
+		// (a statement of the instance's health checker at its own server may land inside the instant of this iteration:
+		// only views of other hosts show that the handler went on to examine the group)
 		class = "reconnected"
 	default:
 		live := false
